@@ -269,7 +269,7 @@ pub fn run(part: &mut Part) {
                 vec![
                     prof("empty x A_full", vec![seed_empty()], a_full(), if q { 3 } else { 4 }),
                     prof("structural seeds x A_full", structural_seeds(), a_full(), if q { 3 } else { 4 }),
-                    prof("cursor at block/file end x A_full", cursor_seeds(&[0, 3], &[0, 6, 7, 19]), a_full(), if q { 2 } else { 3 }),
+                    prof("cursor at block/file end, all-dead file x A_full", { let mut v = cursor_seeds(&[0, 3], &[0, 6, 7, 19]); v.extend(all_dead_seeds()); v }, a_full(), if q { 3 } else { 4 }),
                 ]
             } else {
                 let mut s = vec![seed_empty()];
@@ -289,6 +289,8 @@ pub fn run(part: &mut Part) {
         "C15" => {
             let mut seeds = vec![seed_empty(), seed_empty_old(), seed_gc_ready(), seed_two_files()];
             seeds.extend(cursor_seeds(&[0, 3], &[0, 1, 2, 3, 4, 5, 6, 7, 8]));
+            seeds.extend(all_dead_seeds());
+            seeds.extend(gc_spill_seeds().into_iter().step_by(3));
             let mut alpha = a_roll();
             alpha.push(Op::app(QA, Pos::Retry, Sz::S3));
             alpha.push(Op::Append { q: QA, pos: Pos::Auto, sizes: vec![] });
@@ -622,7 +624,7 @@ pub fn run(part: &mut Part) {
             part.require_outcomes(&["open-ok", "open-err-corruption", "open-err-io"]);
         }
         "C17" => {
-            let mut seeds = vec![seed_ab(), seed_two_files(), seed_three_files(), seed_gc_ready(), seed_empty_old(), seed_interleaved()];
+            let mut seeds = vec![seed_ab(), seed_two_files(), seed_three_files(), seed_gc_ready(), seed_empty_old(), seed_interleaved(), seed_collected()];
             seeds.extend(gc_spill_seeds().into_iter().take(2));
             let profiles = vec![
                 prof("roll/GC seeds x A_roll", seeds, a_roll(), if TINY { if q { 2 } else { 3 } } else if q { 1 } else { 2 }),
@@ -635,13 +637,16 @@ pub fn run(part: &mut Part) {
                     c17_leaf(env, leaf, 1);
                 }
                 c17_leaf(env, leaf, 2);
+                if leaf.seed.name.starts_with("collected") {
+                    c17_leaf(env, leaf, 3);
+                }
             });
             part.stats.merge(stats);
             part.bounds = json!({"profiles": descr, "foreign_entries": ["23-char wal name", "25-char wal name", "19 digits + letter", "24 bytes with an Arabic-Indic digit", "upper-case prefix", "sub-directory with a valid WAL name (900) holding a file", "symlink with a valid WAL name (901) to a file with valid WAL content", "dotfile", "large unrelated file", "'+' sign", "'.tmp' suffix", "xwal- prefix with 24 chars", "embedded space", "'-' sign"],
-                "foreign_content": "every foreign file holds a valid WAL that creates queue \"evil\" with one record", "variants": ["foreign entries present from the start", "WAL files renumbered with gaps after the seed (k -> k + 3*rank + 2), log reopened", "a symlink to an outside file planted on the name of the next WAL file to be created (after the seed; for the empty seed: on wal-0 before the first open)"], "file_system": "real (tmpfs), not the in-memory directory"});
+                "foreign_content": "every foreign file holds a valid WAL that creates queue \"evil\" with one record", "variants": ["foreign entries present from the start", "WAL files renumbered with gaps after the seed (k -> k + 3*rank + 2), log reopened", "a symlink to an outside file planted on the name of the next WAL file to be created (after the seed; for the empty seed: on wal-0 before the first open)", "a symlink and a sub-directory with valid WAL names on already collected numbers (seed 'collected')"], "file_system": "real (tmpfs), not the in-memory directory"});
             part.stats.sample(|| json!({"seed":"gc-ready","ops":["Trunc(0,Last)","App(1,Auto,[XL])"],"variant":"foreign-entries"}));
             part.rule = "real directory pre-populated with 14 foreign entries x every history of the bound (roll-over and GC on the path): after every explored prefix each foreign entry is byte-identical (type, content, link target, children), every name created/removed/opened/read/written/resized in the I/O trace is wal-<20 digits> and not foreign, and queue \"evil\" never appears; second variant: the seed's WAL files are renumbered with gaps and the log must reopen to the model state and keep conforming".into();
-            part.require_outcomes(&["calls_deleting_wal_files", "calls_creating_wal_files", "gap_renumberings", "symlink_on_next_wal_name_cases"]);
+            part.require_outcomes(&["calls_deleting_wal_files", "calls_creating_wal_files", "gap_renumberings", "symlink_on_next_wal_name_cases", "symlink_on_collected_wal_name_cases"]);
         }
         other => {
             part.machinery_errors
@@ -750,7 +755,7 @@ pub fn replay(path: &str) -> i32 {
         "c14" => c14_leaf(&mut env, &leaf),
         "c18" => c18_leaf(&mut env, &leaf),
         "c18-crash" => crate::crash::c18_crash_leaf(&mut env, &leaf),
-        "c17" => c17_leaf(&mut env, &leaf, if case["variant"] == "numbering-gaps" { 1 } else { 0 }),
+        "c17" => c17_leaf(&mut env, &leaf, match case["variant"].as_str().unwrap_or("") { "numbering-gaps" => 1, "symlink-on-next-wal-name" => 2, "non-regular-entries-on-collected-wal-names" => 3, _ => 0 }),
         "frame" => {
             let g = |k: &str| case[k].as_u64().map(|v| v as usize);
             let mut entries: Vec<Vec<u8>> = vec![];
